@@ -19,7 +19,7 @@ ASSUMPTIONS = [
     "real-valued parameters are covered on the finite catalogue + VERIF_SEED-indexed generic reals (cond<=1e3) only",
     "sizes bounded: Dx,Dy<=3 (thorough 4), N<=3 (thorough 4)",
 ]
-BOUNDS = {"quick": dict(D=[1, 2, 3], N=[1, 2, 3]), "thorough": dict(D=[1, 2, 3, 4], N=[1, 2, 3, 4])}
+BOUNDS = {"quick": dict(D=[1, 2, 3], N=[1, 2, 3]), "thorough": dict(D=[1, 2, 3, 4, 5], N=[1, 2, 3, 4, 5])}
 BUDGET = {"quick": 600, "thorough": 3600}
 
 
@@ -43,7 +43,7 @@ def shards(tier, seed):
 def run_shard(shard, ctx):
     tier, seed = shard["tier"], shard["seed"]
     kind, Dx, Dy = shard["kind"], shard["Dx"], shard["Dy"]
-    vis = [0, 1, 100] if tier == "quick" else [0, 1, 2, 3, 100, 101, 102]
+    vis = [0, 1, 100] if tier == "quick" else [0, 1, 2, 3, 100, 101, 102, 103, 104, 105]
     Ns = BOUNDS[tier]["N"] if not shard.get("big") else ([4] if shard["big"] is True else [shard["big"]])
     convs = [("R1", N) for N in Ns] + [("RN", N) for N in Ns if N >= 2]
     for conv, N in convs:
